@@ -195,6 +195,11 @@ func c05family(thorough bool, add func(cfg *Config, bound int, maxExec int64, or
 	sig := func(s StepCfg, n string) StepCfg { s.SigOnStop = n; return s }
 	rep := func(s StepCfg, ms int) StepCfg { s.Repeat, s.RepeatMs = true, ms; return s }
 	h := map[string]string{"onCancel": "ok", "onExit": "ok", "onFailure": "ok", "onSuccess": "ok"}
+	// maximum clean-up time: the quick tier ends the grace period at the agent's first look at its timers (3 s); the thorough tier lets one repeated signal (5 s) happen before the forced kill
+	cleanupMs := 1000
+	if thorough {
+		cleanupMs = 10000
+	}
 	variants := func(mk func(mod func(StepCfg) StepCfg) []StepCfg) [][]StepCfg {
 		return [][]StepCfg{
 			mk(func(s StepCfg) StepCfg { return s }), // ends by itself at any time
@@ -216,34 +221,40 @@ func c05family(thorough bool, add func(cfg *Config, bound int, maxExec int64, or
 		{sig(hang(st("a")), "SIGINT"), hang(st("b"))},
 		{hang(st("a")), sig(hang(st("b")), "SIGINT")},
 		{sig(st("a"), "SIGINT"), hang(st("b", "a"))},
-		{sig(hang(st("a")), "SIGINT"), sig(hang(st("b")), "SIGUSR1"), hang(st("c"))},
 		{rep(st("a"), 1000), st("b")},
 		{rep(st("a"), 1000)},
 		{retrying(st("a"), -1, 2, 2000)},
 	}...)
+	if thorough {
+		progs = append(progs, []StepCfg{sig(hang(st("a")), "SIGINT"), sig(hang(st("b")), "SIGUSR1"), hang(st("c"))})
+	}
 	for i, p := range progs {
 		for _, viaSig := range []bool{false, true} {
 			if viaSig && !thorough && i%3 != 1 {
 				continue
 			}
-			cfg := &Config{Steps: p, Agent: true, Stop: true, CleanupMs: 10000, Handlers: h, SigTerm: viaSig}
-			add(cfg, 0, 1000000, "C05")
+			cfg := &Config{Steps: p, Agent: true, Stop: true, CleanupMs: cleanupMs, Handlers: h, SigTerm: viaSig}
+			add(cfg, 0, 4000000, "C05")
 		}
 	}
 	// launch delay: the stop can arrive while the loop waits out the delay between two launches
-	for _, p := range [][]StepCfg{{st("a"), st("b")}, {hang(st("a")), st("b")}, {st("a"), st("b", "a")}, {st("a"), st("b"), st("c")}} {
-		add(&Config{Steps: p, Agent: true, Stop: true, CleanupMs: 10000, Handlers: h, DelayMs: 1000}, 0, 1000000, "C05")
+	delayed := [][]StepCfg{{st("a"), st("b")}, {hang(st("a")), st("b")}, {st("a"), st("b", "a")}}
+	if thorough {
+		delayed = append(delayed, []StepCfg{st("a"), st("b"), st("c")})
+	}
+	for _, p := range delayed {
+		add(&Config{Steps: p, Agent: true, Stop: true, CleanupMs: cleanupMs, Handlers: h, DelayMs: 1000}, 0, 4000000, "C05")
 	}
 	// preemptive windows (between executor creation and process start; between the cancel check and the status flip)
-	pbs := [][]StepCfg{{hang(st("a"))}, {st("a"), hang(st("b", "a"))}}
+	pbs := [][]StepCfg{{hang(st("a"))}}
 	if thorough {
-		pbs = append(pbs, []StepCfg{hang(st("a")), st("b", "a")}, []StepCfg{hang(st("a")), hang(st("b"))}, []StepCfg{retrying(st("a"), 1, 1, 2000), hang(st("b", "a"))})
+		pbs = append(pbs, []StepCfg{st("a"), hang(st("b", "a"))}, []StepCfg{hang(st("a")), st("b", "a")}, []StepCfg{hang(st("a")), hang(st("b"))}, []StepCfg{retrying(st("a"), 1, 1, 2000), hang(st("b", "a"))})
 	}
 	for _, p := range pbs {
-		add(&Config{Steps: p, Agent: true, Stop: true, CleanupMs: 10000, Handlers: h, DoneSync: thorough}, 1, 2000000, "C05")
+		add(&Config{Steps: p, Agent: true, Stop: true, CleanupMs: cleanupMs, Handlers: h, DoneSync: thorough}, 1, 2000000, "C05")
 	}
 	// DAG timeout with steps that hang
 	for _, p := range [][]StepCfg{{hang(st("a"))}, {hang(st("a")), st("b", "a")}, {st("a"), hang(st("b", "a"))}, {hang(st("a")), hang(st("b"))}} {
-		add(&Config{Steps: p, Agent: true, TimeoutMs: 1000, CleanupMs: 10000, Handlers: h}, 0, 400000, "C05")
+		add(&Config{Steps: p, Agent: true, TimeoutMs: 1000, CleanupMs: cleanupMs, Handlers: h}, 0, 400000, "C05")
 	}
 }
